@@ -160,8 +160,73 @@ def _analyse_path(recs, lay, m, entry, o):
             recs.append(Rec('L3', m.name, entry, ev.func, ev.node, not probs,
                             'pieces of %r bytes tile the %r-byte buffer in loop order' % (ln, buf.length) if not probs else
                             'assembly buffer: ' + '; '.join(probs), {'piece': repr(ln)}, ev=ev))
+    # ---- L3 for arrays assembled from decoded blocks: block n of the file lands at array position n
+    tile_checks(recs, lay, m, entry, events)
     # ---- L4 crop idiom on decoded arrays (subscripts in read.py)
     crop_checks(recs, lay, m, entry, events)
+
+
+def tile_checks(recs, lay, m, entry, events):
+    T = m.T
+    for ev in events:
+        if ev.kind != 'arrstore' or not isinstance(ev.arr, Arr) or ev.arr.kind != 'zeros':
+            continue
+        val = ev.value
+        if not (isinstance(val, Arr) and val.kind == 'decoded' and isinstance(val.src, Bytes)):
+            continue
+        rd = [r for r in events if r.kind == 'read' and r.node is val.src.site]
+        if not rd or not isinstance(rd[0].offset, Poly):
+            recs.append(Rec('L3', m.name, entry, ev.func, ev.node, False, 'block store whose source read does not normalise', ev=ev))
+            continue
+        off = T.canon(rd[0].offset)
+        idx = ev.index
+        elts = idx.elts if isinstance(idx, Tup) else [idx]
+        ashape = ev.arr.shape or []
+        vshape = val.shape.elts if isinstance(val.shape, Tup) else (val.shape or [])
+        axes = [0, 1, 2] if len(ashape) == 3 else [1, 2]
+        probs = []
+        if len(elts) != len(ashape) or len(vshape) != len(ashape):
+            probs.append('store index / block shape / array shape have different ranks')
+        else:
+            for j, ix in enumerate(elts):
+                k = axes[j]
+                nm = ('IL', 'XL', 'Z')[k]
+                bs = vshape[j]
+                if not (isinstance(ix, SliceV) and isinstance(ix.lo, Poly) and isinstance(ix.hi, Poly) and isinstance(bs, Poly)):
+                    probs.append('position %d: store slice does not normalise' % j)
+                    continue
+                if ix.hi - ix.lo != bs:
+                    probs.append('position %d: the slice is %r long, the decoded block %r' % (j, ix.hi - ix.lo, bs))
+                    continue
+                if bs != 4 * lay.bvec[k]:
+                    probs.append('position %d: decoded block extent %r is not the %s blockshape component' % (j, bs, nm))
+                    continue
+                lo = T.canon(ix.lo)
+                q = T.exact_div(lo, bs)
+                if q is None:
+                    probs.append('position %d: slice start %r is not a multiple of the block extent %r' % (j, lo, bs))
+                    continue
+                if q.is_zero():
+                    if not isinstance(ashape[j], Poly) or ashape[j] != bs:
+                        probs.append('position %d: every block is stored at 0 but the array is %r long' % (j, ashape[j]))
+                    continue
+                atoms = list(q.atoms())
+                if len(atoms) != 1 or q != A(atoms[0]) or T.meta.get(atoms[0], {}).get('kind') != 'loop':
+                    probs.append('position %d: slice start %r is not <block extent> * <loop counter>' % (j, lo))
+                    continue
+                a = atoms[0]
+                cnt = T.meta[a].get('count')
+                if isinstance(ashape[j], Poly) and isinstance(cnt, Poly) and cnt * bs != ashape[j]:
+                    probs.append('position %d: %r blocks of %r do not fill the array extent %r' % (j, cnt, bs, ashape[j]))
+                terms = Poly({kk: v for kk, v in off.t.items() if any(x == a for x, e in kk)})
+                coef = T.exact_div(terms, A(a)) if not terms.is_zero() else Poly()
+                if coef is None or coef != lay.S_blk[k]:
+                    probs.append('position %d (%s): array position advances with loop %s, but the file offset advances by %r '
+                                 'per step of it (the %s block stride is %r): the block read is not the block stored' % (
+                                     j, nm, a.split('@')[0], coef, nm, lay.S_blk[k]))
+        recs.append(Rec('L3', m.name, entry, ev.func, ev.node, not probs,
+                        'decoded block (i, x, z) of the file lands at array block position (i, x, z); blocks fill the array'
+                        if not probs else 'block-wise assembly: ' + '; '.join(probs), ev=ev))
 
 
 def base_of_array(lay, m, arr, events):
@@ -169,7 +234,12 @@ def base_of_array(lay, m, arr, events):
     that feeds it (loop variables at 0)."""
     src = arr.src if isinstance(arr, Arr) else None
     reads = []
-    if isinstance(src, Bytes):
+    if isinstance(arr, Arr) and arr.kind == 'zeros':
+        # an array assembled block by block: its origin is the coordinate of the block stored at position 0
+        for e in events:
+            if e.kind == 'arrstore' and e.arr is arr and isinstance(e.value, Arr) and isinstance(e.value.src, Bytes):
+                reads += [r for r in events if r.kind == 'read' and r.node is e.value.src.site]
+    elif isinstance(src, Bytes):
         reads = [e for e in events if e.kind == 'read' and e.node is src.site]
     elif isinstance(src, (Buf, BufSlice)):
         b = src if isinstance(src, Buf) else src.buf
@@ -248,7 +318,10 @@ def is_request_value(lay, m, p, k):
 def crop_checks(recs, lay, m, entry, events):
     T = m.T
     for ev in events:
-        if ev.kind != 'subscript' or not isinstance(ev.arr, Arr) or ev.arr.kind != 'decoded':
+        if ev.kind != 'subscript' or not isinstance(ev.arr, Arr):
+            continue
+        if ev.arr.kind != 'decoded' and not (ev.arr.kind == 'zeros' and any(
+                e.kind == 'arrstore' and e.arr is ev.arr for e in events)):
             continue
         if not ev.func.qualname.startswith('read.'):
             continue
